@@ -3,20 +3,31 @@ import J5V.Pipe.Service
 import J5V.Pipe.Walk
 import J5V.Pipe.List
 import J5V.Pipe.Swagger
+import J5V.Pipe.Flatten
+import J5V.Pipe.ListRequest
+import J5V.Pipe.Client
+import J5V.Pipe.Entity
 /-! Line-protocol driver for the pipe cluster (C16), core only. One op per input line, one result
 per output line; see `/verif/harness/PROTOCOL-pipe.md`.
 
-The driver parses the structured package of a `chain` op, hands the declared services to the
-composed service model (`J5V.Pipe.chainService`), the schemas to the graph walks
-(`J5V.Pipe.walk`, `J5V.Pipe.collect`) and prints the canonical summary the Go harness prints for
-the client API the real pipeline produced. The translation *op → model input* (token parsing,
-hoisting of inline schemas into named graph nodes) is glue, validated by the stream only. -/
-open J5V.Go J5V.Compile J5V.Pipe
+The driver parses the structured package of a `chain` op and hands
+* the declared services and the services entities generate (`J5V.Pipe.entityServiceDecls` over the
+  compile cluster's `J5V.Compile.Entity`) to the composed service model (`J5V.Pipe.chainService`),
+* the request properties to `J5V.Pipe.fillRequestFlat` (flattened body properties),
+* the schemas to the graph models: `J5V.Pipe.clientGraph` (flattening), `J5V.Pipe.buildListRequest`
+  (list fields), `J5V.Pipe.clientSchemas` (schemas present),
+* enum default filters to `J5V.Pipe.enumDefaultsChain`,
+and prints the canonical summary the Go harness prints for the client API the real pipeline
+produced. The translation *op → model input* (token parsing, hoisting of inline schemas into named
+graph nodes, the schema shapes of an entity's State / Event / EventType, the two built-in
+`j5.state.v1` metadata schemas) is glue, validated by the stream only. -/
+open J5V.Go J5V.Pipe
+open J5V.Compile (Str toCamel toSnake toLowerCamel toScreamingSnake splitOnByte joinWith)
 
 abbrev S := String
 
 def strOf (s : S) : Str := s.toUTF8.toList.map (·.toNat)
-def ofStr (s : Str) : S := Str.toString s
+def ofStr (s : Str) : S := J5V.Compile.Str.toString s
 
 /-! ## the structured package -/
 
@@ -49,7 +60,7 @@ structure TMethod where
   list : Bool
 
 structure TService where
-  name : S
+  name : S                  -- "" = unnamed (entity command service)
   base : Option Str
   methods : List TMethod
 
@@ -64,6 +75,7 @@ structure TEntity where
   data : List TProp
   statuses : List S
   events : List (S × List TProp)
+  commands : List TService
 
 structure TSpec where
   pkg : S
@@ -121,6 +133,23 @@ def pMsgs : P (List (S × List TProp)) := do
   let n ← num
   rep n (do let name ← tok; let ps ← pProps; pure (name, ps))
 
+def pService : P TService := do
+  let name0 ← tok
+  let name := if name0 == "~" then "" else name0
+  let b ← tok
+  let base ← if b == "~" then pure none else match fromHex b with
+    | some x => pure (some x)
+    | none => failure
+  let nM ← num
+  let methods ← rep nM (do
+    let name ← tok; let verb ← tok; let path ← hexTok
+    let req ← pProps
+    let hr ← tok
+    let resp ← pProps
+    let l ← tok
+    pure { name, verb, path, req, hasResp := hr == "1", resp, list := l == "1" : TMethod })
+  pure { name, base, methods : TService }
+
 def pSpec : P TSpec := do
   -- "<pkg>" or "<pkg>+<n>" (n schemas live in a second source file: irrelevant for the model)
   let pkg := ((← tok).splitOn "+").headD ""
@@ -131,21 +160,7 @@ def pSpec : P TSpec := do
     else if kind == "O" || kind == "U" then do pure { kind, name, props := (← pProps), opts := [] : TSchema }
     else failure)
   let nV ← num
-  let services ← rep nV (do
-    let name ← tok
-    let b ← tok
-    let base ← if b == "~" then pure none else match fromHex b with
-      | some x => pure (some x)
-      | none => failure
-    let nM ← num
-    let methods ← rep nM (do
-      let name ← tok; let verb ← tok; let path ← hexTok
-      let req ← pProps
-      let hr ← tok
-      let resp ← pProps
-      let l ← tok
-      pure { name, verb, path, req, hasResp := hr == "1", resp, list := l == "1" : TMethod })
-    pure { name, base, methods : TService })
+  let services ← rep nV pService
   let nT ← num
   let topics ← rep nT (do
     let kind ← tok; let name ← tok
@@ -158,19 +173,103 @@ def pSpec : P TSpec := do
     let keys ← pProps; let data ← pProps
     let n ← num; let statuses ← rep n tok
     let events ← pMsgs
-    pure { name, keys, data, statuses, events : TEntity })
+    let nC ← num
+    let commands ← rep nC pService
+    pure { name, keys, data, statuses, events, commands : TEntity })
   if (← get).isEmpty then pure { pkg, schemas, services, topics, entities } else failure
+
+def hasFlag (fl : S) (c : Char) : Bool := fl.toList.contains c
+def camel (s : S) : S := ofStr (toCamel (strOf s))
+def lowerCamel (s : S) : S := ofStr (toLowerCamel (strOf s))
+def snake (s : S) : S := ofStr (toSnake (strOf s))
+
+/-! ## entities: the compile cluster's model gives the services; the schemas are glue
+
+`toEntity` builds the `J5V.Compile.Entity` value of a declared entity (what j5parse hands to
+`sourcewalk/entity.go`), as far as the generated services depend on it: name, keys (name, primary /
+shard), command services (name, base path, methods: name, verb, path, request property names,
+presence of a response). -/
+
+def sourceVerb (v : S) : J5V.Compile.Verb :=
+  match v with
+  | "GET" => .get | "POST" => .post | "PUT" => .put | "DELETE" => .delete | "PATCH" => .patch
+  | _ => .unspecified
+
+/-- only the name of a property matters to the service model: every property is a string field -/
+def nameProp (p : TProp) : J5V.Compile.Property := .mk (strOf p.1) false false (.string [] false)
+
+def keyProp (p : TProp) : J5V.Compile.EntityKeyDecl :=
+  { prop := .mk (strOf p.1) (hasFlag p.2.1 'p') false
+      (.key .none (if hasFlag p.2.1 'p' then .ek (.primary true) none else .nokey) [] false),
+    shard := hasFlag p.2.1 'h' }
+
+def sourceService (sv : TService) : J5V.Compile.Service :=
+  { name := if sv.name == "" then none else some (strOf sv.name),
+    basePath := sv.base,
+    methods := sv.methods.map fun m =>
+      { name := strOf m.name, verb := sourceVerb m.verb, path := m.path,
+        request := some (m.req.map nameProp),
+        response := if m.hasResp then some (m.resp.map nameProp) else none } }
+
+def toEntity (e : TEntity) : J5V.Compile.Entity :=
+  { name := strOf e.name, baseUrl := [], keys := e.keys.map keyProp, data := [], statuses := e.statuses.map strOf,
+    events := [], commands := e.commands.map sourceService, summaries := [], query := none, nested := [] }
+
+/-- component name of an entity (`FooKeys`, `FooState`, …): `J5V.Compile.Entity.componentName` -/
+def comp (e : TEntity) (suffix : S) : S := ofStr (J5V.Compile.Entity.componentName (toEntity e) (strOf suffix))
+
+def getKeyProps (e : TEntity) : List TProp := e.keys.filter fun k => hasFlag k.2.1 'p' || hasFlag k.2.1 'h'
+def listKeyProps (e : TEntity) : List TProp := e.keys.filter fun k => hasFlag k.2.1 'h'
+
+/-- the schemas an entity expands to (`sourcewalk/entity.go`: Keys, Data, Status, State, EventType
+with one nested object per event, Event), at the level of the op's own schema description -/
+def entitySchemas (e : TEntity) : List TSchema :=
+  let c := comp e
+  [ { kind := "O", name := c "Keys", props := e.keys, opts := [] },
+    { kind := "O", name := c "Data", props := e.data, opts := [] },
+    { kind := "E", name := c "Status", props := [], opts := e.statuses },
+    { kind := "O", name := c "State", opts := [], props :=
+        [("metadata", "r", .ext "j5.state.v1" "StateMetadata"), ("keys", "rF", .ref "o" (c "Keys")),
+         ("data", "r", .ref "o" (c "Data")), ("status", "rf", .ref "e" (c "Status"))] },
+    { kind := "U", name := c "EventType", opts := [], props :=
+        e.events.map fun ev => (lowerCamel ev.1, "-", .ref "o" (c "EventType" ++ "_" ++ ev.1)) } ] ++
+  e.events.map (fun ev => { kind := "O", name := c "EventType" ++ "_" ++ ev.1, props := ev.2, opts := [] }) ++
+  [ { kind := "O", name := c "Event", opts := [], props :=
+        [("metadata", "r", .ext "j5.state.v1" "EventMetadata"), ("keys", "rF", .ref "o" (c "Keys")),
+         ("event", "rf", .ref "u" (c "EventType"))] } ]
+
+def pageReqT : TProp := ("page", "-", .ext "j5.list.v1" "PageRequest")
+def queryReqT : TProp := ("query", "-", .ext "j5.list.v1" "QueryRequest")
+def pageResT : TProp := ("page", "-", .ext "j5.list.v1" "PageResponse")
+
+/-- the property types of the query service's methods (names, verbs and paths come from the model) -/
+def queryMethodsT (e : TEntity) : List TMethod :=
+  let n := camel e.name
+  let st := lowerCamel (snake e.name)
+  [ { name := n ++ "Get", verb := "GET", path := [], req := getKeyProps e, hasResp := true,
+      resp := [(st, "r", .ref "o" (comp e "State"))], list := false },
+    { name := n ++ "List", verb := "GET", path := [], req := listKeyProps e ++ [pageReqT, queryReqT], hasResp := true,
+      resp := [(st, "r", .arr (.ref "o" (comp e "State"))), pageResT], list := true },
+    { name := n ++ "Events", verb := "GET", path := [], req := getKeyProps e ++ [pageReqT, queryReqT], hasResp := true,
+      resp := [("events", "-", .arr (.ref "o" (comp e "Event"))), pageResT], list := true } ]
+
+/-- built-in schemas the entity schemas refer to; `Cause` and what is below it carry no list rules
+(assumption, confirmed by the stream) and are left out -/
+def builtinSchemas : List TSchema :=
+  [ { kind := "O", name := "@j5.state.v1.StateMetadata", opts := [], props :=
+        [("createdAt", "s", .scalar "ts"), ("updatedAt", "s", .scalar "ts"), ("lastSequence", "-", .scalar "u64")] },
+    { kind := "O", name := "@j5.state.v1.EventMetadata", opts := [], props :=
+        [("eventId", "-", .scalar "str"), ("sequence", "-", .scalar "u64"), ("timestamp", "fs", .scalar "ts"),
+         ("cause", "-", .scalar "any")] } ]
 
 /-! ## graph of named schemas (inline schemas hoisted as `<Parent>_<Camel(field)>`) -/
 
 structure NamedNode where
-  key : S                  -- key in the package's schema map ("Name" or "service.Name")
+  key : S                  -- key in the package's schema map ("Name" or "service.Name"; "@pkg.Name" = built-in)
   kind : RootKind
   props : List TProp       -- for object / oneof
   parent : S               -- message name used for naming inline children
   pfx : S                  -- "" or "service."
-
-def camel (s : S) : S := ofStr (toCamel (strOf s))
 
 /-- all inline schemas below a list of properties of the message `parent` -/
 partial def hoist (pfx parent : S) (props : List TProp) : List NamedNode :=
@@ -190,11 +289,19 @@ where
       [{ key := pfx ++ n, kind := .enum, props := [], parent := n, pfx }]
     | _ => []
 
+/-- every service of the package with its sub-package messages: declared, entity query, entity command -/
+def allServicesT (sp : TSpec) : List TService :=
+  sp.services ++ sp.entities.foldl (fun acc e =>
+    acc ++ [{ name := camel e.name ++ "Query", base := none, methods := queryMethodsT e }] ++ e.commands) []
+
+def allSchemasT (sp : TSpec) : List TSchema :=
+  sp.schemas ++ sp.entities.foldl (fun acc e => acc ++ entitySchemas e) [] ++ builtinSchemas
+
 def allNodes (sp : TSpec) : List NamedNode :=
-  let top := sp.schemas.foldl (fun acc sc =>
+  let top := (allSchemasT sp).foldl (fun acc sc =>
     let kind := if sc.kind == "O" then RootKind.object else if sc.kind == "U" then .oneof else .enum
     acc ++ ({ key := sc.name, kind, props := sc.props, parent := sc.name, pfx := "" } :: hoist "" sc.name sc.props)) []
-  let meth := sp.services.foldl (fun acc sv => sv.methods.foldl (fun acc m =>
+  let meth := (allServicesT sp).foldl (fun acc sv => sv.methods.foldl (fun acc m =>
     acc ++ hoist "service." (m.name ++ "Request") m.req ++ hoist "service." (m.name ++ "Response") m.resp) acc) []
   top ++ meth
 
@@ -220,14 +327,12 @@ def lkindOf (t : TType) : LKind :=
   | .ione _ => .oneof
   | _ => .other
 
-def hasFlag (fl : S) (c : Char) : Bool := fl.toList.contains c
-
 partial def fieldOf (nodes : List NamedNode) (pfx parent field : S) : TType → Field
   | .scalar _ => .scalar
   | .ref sub n =>
     let i := indexOf nodes n
     if sub == "o" then .object i else if sub == "u" then .oneof i else .enum i
-  | .ext _ _ => .object unlinked
+  | .ext p n => .object (indexOf nodes ("@" ++ p ++ "." ++ n))
   | .arr e => .array (fieldOf nodes pfx parent field e)
   | .map e => .map (fieldOf nodes pfx parent field e)
   | .iobj _ => .object (indexOf nodes (pfx ++ parent ++ "_" ++ camel field))
@@ -273,11 +378,17 @@ where
     | .ione ps => allPropsBelow ps
     | _ => []
 
+/-- `flatten` exists on a direct reference to a declared object only -/
+def isFlatProp (p : TProp) : Bool :=
+  hasFlag p.2.1 'F' && match p.2.2 with
+    | .ref "o" _ => true
+    | _ => false
+
 def propOf (nodes : List NamedNode) (pfx parent : S) (p : TProp) : Prop' :=
   let (name, fl, t) := p
   let rules : LRules := { filter := hasFlag fl 'f', sort := hasFlag fl 's', search := hasFlag fl 'q' }
   { name := strOf name, field := fieldOf nodes pfx parent name t,
-    tag := (listEffect (lkindOf t) rules).toTag }
+    tag := (listEffect (lkindOf t) rules).toTag, flat := isFlatProp p }
 
 def graphOf (nodes : List NamedNode) : Graph :=
   nodes.map fun n => { kind := n.kind, props := n.props.map (propOf nodes n.pfx n.parent) }
@@ -296,44 +407,71 @@ def verbStr : Verb → S
 
 def names (xs : List Str) : List S := xs.map ofStr
 
-def leafType : TType → TType
-  | .arr e => leafType e
-  | .map e => leafType e
-  | t => t
+/-- `fillRequest`'s test for a list method: an object field referring to `j5.list.v1.QueryRequest` -/
+def isQueryProp (p : TProp) : Bool :=
+  match p.2.2 with
+  | .ext "j5.list.v1" "QueryRequest" => true
+  | _ => false
 
-def listPart (nodes : List NamedNode) (g : Graph) (m : TMethod) : S :=
-  if !m.list then "~" else
-  match m.resp with
-  | (_, _, t) :: _ =>
-    match leafType t with
-    | .ref _ item =>
-      match walk g (indexOf nodes item) with
-      | some (.ok vs) =>
-        let sel (f : Nat → Bool) : S :=
-          let ps := (vs.filter (fun v => f v.tag)).map (fun v => ".".intercalate (names v.path))
-          if ps.isEmpty then "-" else ";".intercalate ps
-        "f=" ++ sel tagFilter ++ "|s=" ++ sel tagSort ++ "|q=" ++ sel tagSearch
-      | some (.err e) => "walk-err:" ++ e
-      | some (.panic w) => "walk-panic:" ++ w
-      | none => "walk-fuel"
-    | _ => "bad-list"
-  | [] => "bad-list"
+/-- outcome of a method: its summary text, or the stage that fails -/
+inductive MOut where
+  | line (s : S)
+  | fail (stage : S)
 
-def methodLine (nodes : List NamedNode) (g : Graph) (tm : TMethod) (cm : CMethod) : S :=
-  let body := match cm.request.body with
+/-- one method: request split with flattening (`fillRequestFlat`), response, list request
+(`buildListRequest`) -/
+def methodOut (nodes : List NamedNode) (g : Graph) (tm : TMethod) (cm : CMethod) : MOut :=
+  let reqName := tm.name ++ "Request"
+  let reqProps : List ReqProp := tm.req.map fun p =>
+    let pr := propOf nodes "service." reqName p
+    let flat : Option (List Str) :=
+      if pr.flat then
+        match clientMessageProps g [pr] with
+        | some (.ok cs) => some (cs.map (·.name))
+        | _ => some [b!"?flatten-failed"]
+      else none
+    { name := pr.name, flat }
+  let r := fillRequestFlat cm.verb.hasBody cm.path reqProps
+  let body := match r.body with
     | none => "~"
     | some b => csv (names b) "-"
   let resp := match cm.response with
     | none => "~"
-    | some r => ofStr r
-  ofStr cm.name ++ " " ++ verbStr cm.verb ++ " " ++ toHexW cm.path ++ " P:" ++ csv (names cm.request.path) "-"
-    ++ " Q:" ++ csv (names cm.request.query) "-" ++ " B:" ++ body ++ " R:" ++ resp ++ " L:" ++ listPart nodes g tm
+    | some x => ofStr x
+  let listPart : Option S :=
+    if !tm.req.any isQueryProp then some "~" else
+    let respProps : Option (List Prop') :=
+      if tm.hasResp then some (tm.resp.map (propOf nodes "service." (tm.name ++ "Response"))) else none
+    match buildListRequest g respProps with
+    | some (.ok lr) =>
+      let sel (ps : List (List Str)) : S :=
+        if ps.isEmpty then "-" else ";".intercalate (ps.map fun p => ".".intercalate (names p))
+      some ("f=" ++ sel lr.filter ++ "|s=" ++ sel lr.sort ++ "|q=" ++ sel lr.search)
+    | _ => none
+  match listPart with
+  | none => .fail "client"
+  | some l =>
+    .line (ofStr cm.name ++ " " ++ verbStr cm.verb ++ " " ++ toHexW cm.path ++ " P:" ++ csv (names r.path) "-"
+      ++ " Q:" ++ csv (names r.query) "-" ++ " B:" ++ body ++ " R:" ++ resp ++ " L:" ++ l)
 
 def declOf (sv : TService) : Option ServiceDecl := do
   let ms ← sv.methods.mapM fun m => do
     let v ← verbOf m.verb
     pure { name := strOf m.name, verb := v, path := m.path, req := m.req.map (fun p => strOf p.1), hasResp := m.hasResp : MethodDecl }
   pure { name := strOf sv.name, base := sv.base, methods := ms }
+
+/-- one service through the chain; `tms` carries the property types of its methods -/
+def serviceOut (nodes : List NamedNode) (g : Graph) (pkgSub : Str) (d : ServiceDecl) (tms : List TMethod) : MOut :=
+  match chainService pkgSub d with
+  | .ok cs =>
+    let outs := (tms.zip cs.methods).map fun (tm, cm) => methodOut nodes g tm cm
+    match outs.findSome? (fun o => match o with | MOut.fail st => some st | _ => none) with
+    | some st => .fail st
+    | none =>
+      .line ("[" ++ ofStr cs.name ++ " " ++ toString cs.methods.length
+        ++ String.join (outs.map fun o => match o with | .line l => " [" ++ l ++ "]" | .fail _ => "") ++ "]")
+  | .err e => .line ("[model-err:" ++ e ++ "]")
+  | .panic w => .line ("[model-panic:" ++ w ++ "]")
 
 def sortStrings (xs : List S) : List S := (xs.toArray.qsort (· < ·)).toList
 
@@ -342,35 +480,84 @@ def specProps (sp : TSpec) : List TProp :=
   allPropsBelow (sp.schemas.foldl (fun acc sc => acc ++ sc.props) []
     ++ sp.services.foldl (fun acc sv => sv.methods.foldl (fun acc m => acc ++ m.req ++ m.resp) acc) []
     ++ sp.topics.foldl (fun acc t => t.msgs.foldl (fun acc m => acc ++ m.2) acc) []
-    ++ sp.entities.foldl (fun acc e => e.events.foldl (fun acc m => acc ++ m.2) (acc ++ e.keys ++ e.data)) [])
+    ++ sp.entities.foldl (fun acc e =>
+        e.commands.foldl (fun acc sv => sv.methods.foldl (fun acc m => acc ++ m.req ++ m.resp) acc)
+          (e.events.foldl (fun acc m => acc ++ m.2) (acc ++ e.keys ++ e.data))) [])
+
+/-- an array or map of `any`: refused by the schema reader (open finding `api:err:collection-of-any`) -/
+def isAnyCollection : TType → Bool
+  | .arr (.scalar "any") => true
+  | .map (.scalar "any") => true
+  | _ => false
+
+def methodRoots (nodes : List NamedNode) (m : TMethod) : MethodRoots :=
+  { request := m.req.map fun p => (propOf nodes "service." (m.name ++ "Request") p).field,
+    response := if m.hasResp then some (m.resp.map fun p => (propOf nodes "service." (m.name ++ "Response") p).field) else none }
+
+def first? (outs : List MOut) : Option S :=
+  outs.findSome? fun o => match o with | .fail st => some st | _ => none
 
 def chainLine (sp : TSpec) : S :=
   -- enum default filters: the compiler refuses the package when one names no option (`fix:` b6c593a);
   -- "accepted by the compiler, refused by the client" cannot happen (`C16_list_defaults_chain`)
   let verdicts := (specProps sp).map (defaultsVerdict sp.schemas)
   if verdicts.any (·.isNone) then "compile-err" else
+  -- open findings at the image -> API stage: a collection of `any`; an entity without events
+  -- (empty event oneof, C17's finding)
+  if (specProps sp).any (fun p => isAnyCollection p.2.2) || sp.entities.any (·.events.isEmpty) then "fail api" else
   if verdicts.any (· == some false) then "fail client" else
-  if !sp.entities.isEmpty then "skip" else
   let nodes := allNodes sp
   let g := graphOf nodes
   let pkgSub := strOf (sp.pkg ++ ".service")
-  let svcs := sp.services.map fun sv =>
+  let pkg := strOf sp.pkg
+  let svcOuts := sp.services.map fun sv =>
     match declOf sv with
-    | none => "[bad-verb]"
-    | some d =>
-      match chainService pkgSub d with
-      | .ok cs =>
-        " [" ++ ofStr cs.name ++ " " ++ toString cs.methods.length
-          ++ String.join ((sv.methods.zip cs.methods).map fun (tm, cm) => " [" ++ methodLine nodes g tm cm ++ "]") ++ "]"
-      | .err e => " [model-err:" ++ e ++ "]"
-      | .panic w => " [model-panic:" ++ w ++ "]"
-  let roots : List Field := sp.services.foldl (fun acc sv => sv.methods.foldl (fun acc m =>
-    acc ++ (m.req.map fun p => (propOf nodes "service." (m.name ++ "Request") p).field)
-        ++ (if m.hasResp then m.resp.map fun p => (propOf nodes "service." (m.name ++ "Response") p).field else [])) acc) []
-  let keys := match collect g roots with
-    | some is => csv (sortStrings (is.filterMap fun i => (nodes[i]?).map (·.key))) "-"
+    | none => MOut.line "[bad-verb]"
+    | some d => serviceOut nodes g pkgSub d sv.methods
+  -- entities: the services come from the compile cluster's entity model
+  let entOuts : List (List MOut × S × S) := sp.entities.map fun e =>
+    let ce := toEntity e
+    let q : MOut := match entityQueryDecl pkg ce with
+      | some d => serviceOut nodes g pkgSub d (queryMethodsT e)
+      | none => .line "[no-query-service]"
+    let cmds : List MOut := ((entityCommandDecls pkg ce).zip e.commands).map fun (d?, sv) =>
+      match d? with
+      | some d => serviceOut nodes g pkgSub d sv.methods
+      | none => .line "[bad-command-service]"
+    let pk := csv ((e.keys.filter fun k => hasFlag k.2.1 'p').map (·.1)) "-"
+    let evs := csv (e.events.map fun ev => lowerCamel ev.1) "-"
+    (q :: cmds, snake e.name ++ " PK:" ++ pk, "EV:" ++ evs)
+  match first? (svcOuts ++ entOuts.foldl (fun acc x => acc ++ x.1) []) with
+  | some st => "fail " ++ st
+  | none =>
+  let lineOf (o : MOut) : S := match o with | .line l => l | .fail _ => ""
+  let entText : S :=
+    if sp.entities.isEmpty then "" else
+    " E" ++ toString sp.entities.length ++ String.join (entOuts.map fun (outs, headTxt, evTxt) =>
+      match outs with
+      | q :: cmds =>
+        " [" ++ headTxt ++ " " ++ lineOf q ++ " C" ++ toString cmds.length
+          ++ String.join (cmds.map fun c => " " ++ lineOf c) ++ " " ++ evTxt ++ "]"
+      | [] => " [?]")
+  -- schemas present: `collectPackageRefs` over the client view
+  let roots : PackageRoots :=
+    { entities := sp.entities.map fun e =>
+        let fieldsOfSchema (n : S) : List Field :=
+          match nodes.find? (·.key == n) with
+          | some nd => nd.props.map fun p => (propOf nodes nd.pfx nd.parent p).field
+          | none => []
+        { keys := fieldsOfSchema (comp e "Keys"), state := fieldsOfSchema (comp e "State"),
+          event := fieldsOfSchema (comp e "Event"),
+          query := (queryMethodsT e).map (methodRoots nodes),
+          commands := e.commands.map fun sv => sv.methods.map (methodRoots nodes) },
+      services := sp.services.map fun sv => sv.methods.map (methodRoots nodes) }
+  let keys := match clientSchemas g roots with
+    | some (.ok is) =>
+      csv (sortStrings ((is.filterMap fun i => (nodes[i]?).map (·.key)).filter fun k => !k.startsWith "@")) "-"
+    | some (.err e) => "schemas-err:" ++ e
+    | some (.panic w) => "schemas-panic:" ++ w
     | none => "collect-fuel"
-  -- topics: `acceptTopic` / `acceptMultiReqResTopic` naming
+  -- topics: `acceptTopic` / `acceptMultiReqResTopic` naming; entities publish `<Entity>Publish`
   let tname (n : S) : S := ofStr (topicName (strOf n))
   let mname (n : S) : S := ofStr (messageName (strOf n))
   let topics : List S := sp.topics.foldl (fun acc t =>
@@ -379,7 +566,10 @@ def chainLine (sp : TSpec) : S :=
       acc ++ [tname (t.name ++ "Request") ++ "=" ++ mname (t.name ++ "Request"),
               tname (t.name ++ "Reply") ++ "=" ++ mname (t.name ++ "Reply")]
     else acc ++ [tname t.name ++ "=" ++ mname t.name]) []
-  "ok S" ++ toString sp.services.length ++ String.join svcs ++ " K:" ++ keys ++ " T:" ++ csv topics "-"
+  let entTopics : List S := sp.entities.map fun e =>
+    tname (camel e.name ++ "Publish") ++ "=" ++ mname (camel e.name ++ "Event")
+  "ok S" ++ toString sp.services.length ++ String.join (svcOuts.map fun o => " " ++ lineOf o) ++ entText
+    ++ " K:" ++ keys ++ " T:" ++ csv (topics ++ entTopics) "-"
 
 /-! ## kernel ops -/
 
